@@ -6,7 +6,7 @@ import os
 EXPLANATION = (
     "D1 acceptance decision table of PkgPath::new over (component count class 2/4/other x component kinds): 5^2 + 5^4 + 1 rows, Ok iff (Normal,Normal) or (ParentDir,ParentDir,Normal,Normal); "
     "D2 constructed values: 2-component arm short = input path, full = \"../../\" + input; 4-component arm short = component 2 / component 3, full = input; FromStr delegates to new; equality/ordering/hash derived over (short, full); accessors return the stored fields; "
-    "D3 Depend::new: split on \":\", parts != 2 -> Invalid, part 0 -> Pattern::new with `?`, part 1 -> PkgPath::from_str with `?`, accessors return the stored fields")
+    "D3 Depend::new: split on \":\", parts != 2 -> Invalid, part 0 -> Pattern::new with `?`, part 1 -> PkgPath::from_str with `?`, accessors return the stored fields; component tests may be per element, quantified over a sub-slice (c[..2].iter().all(is_parent), predicate tabulated per Component variant), or made on the items of successive next() calls of the Components iterator")
 NOT_DECIDED = ["Path::components normalisation (repeated / trailing slashes, interior '.'), which is what makes both spellings equal (std semantics)"]
 CONFIG_SENSITIVE = False
 DESUGAR = True
